@@ -67,6 +67,9 @@ Definition ok_sites (F : facts) : bool :=
   && list_eqb fwd_eqb (f_forwards_update F) (f_forwards_update documented).
 (* F11 / F16 *)
 Definition ok_pipeline (F : facts) : bool := strs_eqb (f_pipeline F) (f_pipeline documented).
+(* F12: the work-list loop is the one Worklist.v models: pop the head, re-queue at the BACK on KeyError only,
+   file any other exception for the field itself, remember the pending list as a tuple, stop on a repeated list *)
+Definition ok_worklist (F : facts) : bool := strs_eqb (f_worklist F) (f_worklist documented).
 Definition ok_resets (F : facts) : bool := strs_eqb (f_resets F) (f_resets documented).
 
 (* F16: the per-call attributes assigned by validate() before __init_processing *)
